@@ -29,6 +29,11 @@ CONTRACTS = [
       ensures=["forall(lambda q: (q in result) == exists(0, len(items), lambda p: items[p] == q))", "forall(keys(result), lambda q: q in result[q])"]),
     c("group", "fail", variant="wrong", params={"items": Ty.List(Ty.Key), "d": D}, requires=["keys(d) == empty()"], returns=D, nloops=1,
       loops={0: Loop(pos="t", inv=[])}, ensures=["keys(result) == empty()"]),
+    c("bucket_add", "ok", params={"buckets": Ty.List(Ty.Map(Ty.Key, Ty.Int)), "m": Ty.Int, "k": Ty.Key}, requires=["0 <= m and m < len(buckets)"],
+      returns=Ty.List(Ty.Map(Ty.Key, Ty.Int)),
+      ensures=["k in result[m] and result[m][k] == 1", "forall(0, len(result), lambda q: implies(q != m, result[q] == old(buckets[q])))", "len(result) == old(len(buckets))"]),
+    c("bucket_add", "fail", variant="wrong", params={"buckets": Ty.List(Ty.Map(Ty.Key, Ty.Int)), "m": Ty.Int, "k": Ty.Key}, requires=["0 <= m and m < len(buckets)"],
+      returns=Ty.List(Ty.Map(Ty.Key, Ty.Int)), ensures=["not (k in result[m])"]),
     c("stale", "unsupported", params={"d": D, "k": Ty.Key}, requires=["k in d"], returns=D, ensures=["True"]),
     c("loop_then_read", "ok", params={"d": D, "k": Ty.Key}, requires=["k in d"], returns=Ty.Bool, nloops=1,
       loops={0: Loop(seen="S", inv=[KEEP, "forall(S, lambda q: 5 in d[q])"])}, ensures=["result"]),
